@@ -11,7 +11,7 @@ from vlib.cassettes import open_box, async_over
 from vlib.programs import (gen_program, Built, World, Journal, describe, count_features, call_outcome, outcome_teq,
                            playback_function_for)
 from vlib.spies import SpyCassette
-from vlib.values import recording_in_domain, teq, in_domain
+from vlib.values import recording_in_domain, teq, in_domain, first_diff
 
 PROPERTY = 'C01'
 LEVEL = 'exploration'
@@ -138,7 +138,7 @@ def compare_runs(ctx, live, rep, playback, w):
                       dict(w, only_recorded=sorted(set(ro) - set(po))[:5], only_playback=sorted(set(po) - set(ro))[:5]))
     for k in set(ro) & set(po):
         if not teq(ro[k], po[k]):
-            ctx.violation('playback output differs from recorded output on unchanged code', dict(w, key=k, recorded=repr(ro[k])[:300], playback=repr(po[k])[:300]))
+            ctx.violation('playback output differs from recorded output on unchanged code', dict(w, key=k, diff=first_diff(ro[k], po[k]), recorded=repr(ro[k])[:300], playback=repr(po[k])[:300]))
     # 5. play_data returns what record_data stored
     last = {}
     for e in live.journal.events:
